@@ -21,7 +21,8 @@ Inductive step :=
 | SUpdate (c : cond) (sets : list (N * value)) (touched : list N) (ret : option N) (post : dump)
 | SDelete (c : cond) (touched : list N) (ret : option N) (post : dump)
 | SIndex (kind col : N) (ok : bool)
-| SQuery (strat : N) (c : cond) (lim off col : N) (expected : list N) (got : qres).
+| SQuery (strat : N) (c : cond) (lim off col : N) (expected : list N) (got : qres)
+| SSync (post : dump).   (* the real table after something the oracle does not judge (e.g. ROLLBACK) *)
 
 Definition scen_case := (schema * list step)%type.
 
@@ -74,6 +75,7 @@ Definition oracle_step (prev : dump) (s : step) : bool :=
       end
   | SIndex _ _ _ => true
   | SQuery strat c lim off col expected got => qres_eqb got (demanded prev strat lim off col expected)
+  | SSync _ => true
   end.
 
 (* ---- the model on the same step ---- *)
@@ -107,11 +109,12 @@ Definition model_step (st : state) (s : step) : state * bool :=
   | SQuery strat c lim off col expected got =>
       (st, qres_eqb (model_query st strat c lim off col) got &&
            list_eqb N.eqb (map fst (scan (tbl st) c)) expected)
+  | SSync _ => (st, false)   (* never emitted in model-checked cases *)
   end.
 
 Definition post_of (prev : dump) (s : step) : dump :=
   match s with
-  | SInsert _ _ post | SUpdate _ _ _ _ post | SDelete _ _ _ post => post
+  | SInsert _ _ post | SUpdate _ _ _ _ post | SDelete _ _ _ post | SSync post => post
   | _ => prev
   end.
 
@@ -127,3 +130,16 @@ Fixpoint walk (st : state) (prev : dump) (steps : list step) (mismatch : bool) :
 
 Definition check_scen (c : scen_case) : N :=
   let '(s, steps) := c in walk (init s) [] steps false.
+
+(* ---- budget cases: engines with a tiny B-tree entry budget (RelationalConfig::with_max_btree_entries),
+   indexes created on the empty table, statements that fail half-way, outside and inside transactions.
+   The model has no entry budget, so these cases are judged by the property oracle alone, on the
+   implementation's own data: after EVERY statement (failed ones included) every index-served query
+   must return exactly the rows the real evaluate selects on the real scan, a failed statement
+   must leave the table as it was, and a successful one must touch exactly the satisfying rows. *)
+Fixpoint walk_oracle (prev : dump) (steps : list step) : N :=
+  match steps with
+  | [] => V_OK
+  | s :: r => if negb (oracle_step prev s) then V_VIOLATION else walk_oracle (post_of prev s) r
+  end.
+Definition check_budget (c : scen_case) : N := walk_oracle [] (snd c).
